@@ -94,9 +94,10 @@ class LZShape(LZSym):
     kind 'subst'  : reference with 1..2 substitutions (positions enumerated, values symbolic),
     kind 'window' : symbolic literal prefix (0..2) ++ reference[s..e] ++ symbolic suffix (0..1), all s<=e,
     kind 'indel'  : reference[..p] ++ symbolic insertion (0..2) ++ reference[p+d..], d in 0..2."""
-    def __init__(self, name, ref, kind, mms, tgt_alpha, max_tgt=7, required=()):
+    def __init__(self, name, ref, kind, mms, tgt_alpha, max_tgt=7, required=(), small=False):
         Instance.__init__(self, name)
         self.ref, self.kind, self.mms, self.ta, self.max_tgt = list(ref), kind, mms, tgt_alpha, max_tgt
+        self.small = small          # quick tier: at most one free symbol per edit
         self.required_witnesses = required
         self.bounds = {"reference": f"concrete {self.ref}", "target_shape": kind, "alphabet_of_symbolic_symbols": tgt_alpha, "min_match_len": mms,
                        "max_free_target": max_tgt}
@@ -107,7 +108,7 @@ class LZShape(LZSym):
             nt = 1 + e.choose(self.max_tgt, "nt1")
             return e.sym_bytes("tgt", nt, among=self.ta)
         if self.kind == "subst":
-            two = e.choose(2, "two")
+            two = e.choose(1 if self.small else 2, "two")
             p1 = e.choose(n, "p1")
             t = list(ref)
             v = e.sym_bytes("v", 1 + two, among=self.ta)
@@ -121,14 +122,14 @@ class LZShape(LZSym):
         if self.kind == "window":
             s = e.choose(n + 1, "s")
             ln = e.choose(n - s + 1, "len")
-            npre = e.choose(3, "npre"); nsuf = e.choose(2, "nsuf")
+            npre = e.choose(2 if self.small else 3, "npre"); nsuf = e.choose(1 if self.small else 2, "nsuf")
             pre = e.sym_bytes("pre", npre, among=self.ta); suf = e.sym_bytes("suf", nsuf, among=self.ta)
             t = pre + ref[s:s + ln] + suf
             if not t:
                 raise Infeasible()
             return t
         if self.kind == "indel":
-            p = e.choose(n + 1, "p"); d = e.choose(3, "d"); ni = e.choose(3, "ni")
+            p = e.choose(n + 1, "p"); d = e.choose(2 if self.small else 3, "d"); ni = e.choose(2 if self.small else 3, "ni")
             ins = e.sym_bytes("ins", ni, among=self.ta)
             t = ref[:p] + ins + ref[min(p + d, n):]
             if not t:
@@ -143,9 +144,23 @@ class LZShape(LZSym):
         enc, dec = lz_roundtrip(e, [Int(8, 0, x) for x in self.ref], tgt, mm)
         return {"enc": [e.eval_concrete(x) for x in enc], "dec": [e.eval_concrete(x) for x in dec]}
 
+    def concrete_target(self, c):
+        ref, n = self.ref, len(self.ref)
+        if self.kind == "free":
+            return list(c["tgt"])
+        if self.kind == "subst":
+            t = list(ref); t[c["p1"]] = c["v"][0]
+            if c.get("two"):
+                t[c["p1"] + 1 + c["p2d"]] = c["v"][1]
+            return t
+        if self.kind == "window":
+            return list(c["pre"]) + ref[c["s"]:c["s"] + c["len"]] + list(c["suf"])
+        return ref[:c["p"]] + list(c["ins"]) + ref[min(c["p"] + c["d"], n):]
+
     def native(self, inp):
         mm = inp.get("mm", self.mms[inp.get("mm_i", 0)])
-        return "lz_roundtrip", {"ref": self.ref, "tgt": inp.get("tgt_full", inp.get("tgt")), "mm": mm}
+        tgt = inp["tgt_full"] if "tgt_full" in inp else self.concrete_target(inp)
+        return "lz_roundtrip", {"ref": self.ref, "tgt": tgt, "mm": mm}
 
     def concrete_cases(self, rnd):
         out = []
@@ -156,17 +171,17 @@ class LZShape(LZSym):
             if self.kind == "free":
                 nt = 1 + rnd.randrange(self.max_tgt); c.update(nt1=nt - 1, tgt=sym(nt))
             elif self.kind == "subst":
-                two = rnd.randrange(2); p1 = rnd.randrange(n - 1 if two else n)
+                two = rnd.randrange(1 if self.small else 2); p1 = rnd.randrange(n - 1 if two else n)
                 c.update(two=two, p1=p1, v=sym(1 + two))
                 if two:
                     c["p2d"] = rnd.randrange(n - p1 - 1)
             elif self.kind == "window":
-                s_ = rnd.randrange(n + 1); ln = rnd.randrange(n - s_ + 1); npre = rnd.randrange(3); nsuf = rnd.randrange(2)
+                s_ = rnd.randrange(n + 1); ln = rnd.randrange(n - s_ + 1); npre = rnd.randrange(2 if self.small else 3); nsuf = rnd.randrange(1 if self.small else 2)
                 if ln + npre + nsuf == 0:
                     npre = 1
                 c.update(s=s_, len=ln, npre=npre, nsuf=nsuf, pre=sym(npre), suf=sym(nsuf))
             else:
-                p = rnd.randrange(n + 1); d = rnd.randrange(3); ni = rnd.randrange(3)
+                p = rnd.randrange(n + 1); d = rnd.randrange(2 if self.small else 3); ni = rnd.randrange(2 if self.small else 3)
                 c.update(p=p, d=d, ni=ni, ins=sym(ni))
             out.append(c)
         return out
@@ -199,9 +214,10 @@ _reg(LZSym("sym_t", 6, 6, [4, 5, 6], SIGMA_N, SIGMA_30))
 QUICK = ["sym_q"]; THOROUGH = ["sym_t"]
 for _nm, _ref in shape_refs(_SEED).items():
     for _kind in ("free", "subst", "window", "indel"):
-        _reg(LZShape(f"{_kind}_{_nm}", _ref, _kind, [4, 5, 6], SIGMA_30, max_tgt=6))
-        QUICK.append(f"{_kind}_{_nm}")
-        _reg(LZShape(f"T_{_kind}_{_nm}", _ref, _kind, [4, 5, 6, 8], SIGMA_30 + [15], max_tgt=8))
+        if _kind != "free" and _nm in ("rand", "nrun"):
+            _reg(LZShape(f"{_kind}_{_nm}", _ref, _kind, [5], SIGMA_30, small=True))
+            QUICK.append(f"{_kind}_{_nm}")
+        _reg(LZShape(f"T_{_kind}_{_nm}", _ref, _kind, [4, 5, 6, 8], SIGMA_30 + [15], max_tgt=7))
         THOROUGH.append(f"T_{_kind}_{_nm}")
 
 
